@@ -1,5 +1,147 @@
 import AiocoapModel.Basic.Bytes
-/-! Line protocol for C11 (not built yet). -/
-namespace Aiocoap
-def handleC11 (_args : List String) : String := "out-of-model"
-end Aiocoap
+import AiocoapModel.Oscore.Protect
+/-! Line protocol for the OSCORE protect/unprotect model (AEAD = `transparentAead`).
+
+Tokens: bytes as hex (`-` empty); `~` = absent (`None`).
+  ctx  `<alg>:<ivBytes>:<senderId>:<recipientId>:<idContext|~>:<senderKey>:<recipientKey>:<commonIv>:<0|1 responses_send_kid>`
+  rid  `~` | `<kid>:<piv>:<0|1 can_reuse_nonce>:<style code>`
+  msg  `<code> <opts> <payload>` with opts `-` | `<num>=<hex>,<num>=<hex>,…`
+
+`C11 P <ctx> <seq> <rid> <mtype> <mid> <token> <msg>` → `ok <outer datagram> <rid> <seq'>` | `err:<Class>`
+`C11 U <ctx> <rid> <msg>`  → `ok <code> <opts encoded without Observe> <observe|~> <payload> <rid>` | `err:<Class>`
+`C11 Z <option>`           → `<piv|~> <kid|~> <kidctx|~> <group 0|1> <recompressed|~>` | `err:DecodeError`
+`C11 N <ivBytes> <commonIv> <piv> <id>` → nonce | `err:AssertionError`
+`C11 A <alg> <kid> <piv>`  → Encrypt0 AAD
+-/
+namespace Aiocoap.Oscore.Prot
+
+def parseOptBytes (s : String) : Option (Option Bytes) :=
+  if s = "~" then some none else (hexToBytes s).map some
+
+def showOptBytes : Option Bytes → String
+  | none => "~"
+  | some b => bytesToHex b
+
+def parseBit (s : String) : Option Bool :=
+  if s = "1" then some true else if s = "0" then some false else none
+
+def parseCtx (s : String) : Option Ctx :=
+  match s.splitOn ":" with
+  | [alg, iv, sid, rid, idc, sk, rk, civ, rsk] => do
+    let algValue ← alg.toNat?
+    let ivBytes ← iv.toNat?
+    let senderId ← hexToBytes sid
+    let recipientId ← hexToBytes rid
+    let idContext ← parseOptBytes idc
+    let senderKey ← hexToBytes sk
+    let recipientKey ← hexToBytes rk
+    let commonIv ← hexToBytes civ
+    let responsesSendKid ← parseBit rsk
+    pure { algValue, ivBytes, senderId, recipientId, idContext, senderKey, recipientKey,
+           commonIv, responsesSendKid }
+  | _ => none
+
+def parseRid (s : String) : Option (Option ReqId) :=
+  if s = "~" then some none else
+  match s.splitOn ":" with
+  | [kid, piv, reuse, style] => do
+    let kid ← hexToBytes kid
+    let piv ← hexToBytes piv
+    let canReuse ← parseBit reuse
+    let style ← style.toNat?
+    pure (some { kid, piv, canReuse, style })
+  | _ => none
+
+def showRid (r : ReqId) : String :=
+  s!"{bytesToHex r.kid}:{bytesToHex r.piv}:{if r.canReuse then 1 else 0}:{r.style}"
+
+def parseOpt (s : String) : Option Opt :=
+  match s.splitOn "=" with
+  | [n, v] => do
+    let n ← n.toNat?
+    let v ← hexToBytes v
+    pure (n, v)
+  | _ => none
+
+def parseOpts (s : String) : Option (List Opt) :=
+  if s = "-" then some [] else (s.splitOn ",").mapM parseOpt
+
+def parseMsg (code opts payload : String) : Option Msg := do
+  let code ← code.toNat?
+  let opts ← parseOpts opts
+  let payload ← hexToBytes payload
+  pure { code, opts, payload }
+
+def errName : Err → String
+  | .protectionInvalid => "err:ProtectionInvalid"
+  | .decodeError => "err:DecodeError"
+  | .notProtected => "err:NotAProtectedMessage"
+  | .valueError => "err:ValueError"
+  | .contextUnavailable => "err:ContextUnavailable"
+  | .unparsable => "err:UnparsableMessage"
+  | .assertion => "err:AssertionError"
+  | .outOfModel => "out-of-model"
+
+def bytesOk (b : Bytes) : Bool := b.all (· < 256)
+
+def msgOk (m : Msg) : Bool := m.code < 256 && bytesOk m.payload && m.opts.all (fun o => bytesOk o.2)
+
+def showInt (i : Int) : String := if i < 0 then s!"-{i.natAbs}" else s!"{i.natAbs}"
+
+def handle (args : List String) : String :=
+  match args with
+  | ["P", ctx, seq, rid, mtype, mid, token, code, opts, payload] =>
+    match parseCtx ctx, seq.toNat?, parseRid rid, mtype.toNat?, mid.toNat?, hexToBytes token,
+          parseMsg code opts payload with
+    | some A, some seq, some rid, some mtype, some mid, some token, some m =>
+      if !msgOk m || mtype ≥ 4 || mid ≥ 65536 || token.length > 8 then "out-of-model" else
+      match protect transparentAead A seq m rid with
+      | .error e => errName e
+      | .ok r =>
+        match serialize mtype mid token r.outer with
+        | some d => s!"ok {bytesToHex d} {showRid r.rid} {r.seq}"
+        | none => "out-of-model"
+    | _, _, _, _, _, _, _ => "bad-op"
+  | ["U", ctx, rid, code, opts, payload] =>
+    match parseCtx ctx, parseRid rid, parseMsg code opts payload with
+    | some B, some rid, some o =>
+      if !msgOk o then "out-of-model" else
+      match unprotect transparentAead B rid o with
+      | .error e => errName e
+      | .ok (u, r) =>
+        match encodeOpts 0 u.opts with
+        | some e =>
+          let obs := match u.observe with | some i => showInt i | none => "~"
+          s!"ok {u.code} {bytesToHex e} {obs} {bytesToHex u.payload} {showRid r}"
+        | none => "out-of-model"
+    | _, _, _ => "bad-op"
+  | ["Z", option] =>
+    match hexToBytes option with
+    | some o =>
+      match uncompress o with
+      | none => "err:DecodeError"
+      | some u =>
+        s!"{showOptBytes u.piv} {showOptBytes u.kid} {showOptBytes u.kidContext} {if u.group then 1 else 0} {showOptBytes (compress u)}"
+    | none => "bad-op"
+  | ["N", iv, civ, piv, id] =>
+    match iv.toNat?, hexToBytes civ, hexToBytes piv, hexToBytes id with
+    | some iv, some civ, some piv, some id =>
+      if id.length ≥ 256 then "out-of-model" else
+      match constructNonce iv civ piv id with
+      | some n => bytesToHex n
+      | none => "err:AssertionError"
+    | _, _, _, _ => "bad-op"
+  | ["A", alg, kid, piv] =>
+    match alg.toNat?, hexToBytes kid, hexToBytes piv with
+    | some alg, some kid, some piv => bytesToHex (aad alg kid piv)
+    | _, _, _ => "bad-op"
+  | _ => "bad-op"
+
+end Aiocoap.Oscore.Prot
+
+namespace Aiocoap.Oscore
+/-- entry point used by `Driver/Main.lean` (model names live in `Aiocoap.Oscore.Prot` so that they
+cannot collide with the other OSCORE models) -/
+def handleC11 (args : List String) : String := Prot.handle args
+end Aiocoap.Oscore
+
